@@ -249,6 +249,63 @@ def build_dev(d, id='dev'):
   return dev
 
 
+RATIO_FORMS = ['list', 'tuple', 'intarray', 'floatarray', 'floatarray']
+
+
+def build_tree(t, owned=None):
+  """`build.build_tree` plus (a) the forms a caller may hand the two-ratio vector over in (`_py.rform`: list / tuple / integer
+  ndarray when integer-valued / float64 ndarray) and (b) a record, in `owned`, of every array the CALLER still owns after
+  construction (ratios, aggregate bounds), so that the oracle can check the library did not write into them."""
+  n_ = np()
+  from .common import repo
+  dk = repo()
+  owned = owned if owned is not None else []
+  if t['k'] == 'leaf':
+    return build_dev(t['dev'], t['id'])
+  if t['k'] == 'mf':
+    dev = build_dev(t['dev'], t['id'])
+    if t.get('ratios'):
+      vals = [pf(x) for x in t['ratios']]
+      form = t.get('_py', {}).get('rform', 'list')
+      if form == 'intarray' and not all(float(v).is_integer() for v in vals):
+        form = 'floatarray'
+      if form == 'tuple':
+        r = tuple(vals)
+      elif form == 'intarray':
+        r = n_.array([int(v) for v in vals], dtype=int); owned.append(('ratios of ' + t['id'], r))
+      elif form == 'floatarray':
+        r = n_.array(vals, dtype=float); owned.append(('ratios of ' + t['id'], r))
+      else:
+        r = list(vals)
+      return dk.TwoRatioMFDeviceSet(dev, list(t['flows']), r, t.get('ctype', 'eq'))
+    return dk.MFDeviceSet(dev, list(t['flows']))
+  kids = [build_tree(c, owned) for c in t['ch']]
+  sb = None
+  if t.get('sb') is not None:
+    sb = n_.array([[pf(a), pf(b)] for a, b in t['sb']])
+    owned.append(('sbounds of ' + t['id'], sb))
+  if t.get('sub'):
+    return dk.SubBalancedDeviceSet(t['id'], kids, sb, labels=list(t.get('labels', [])), constraint_type=t.get('ctype', 'eq'),
+                                   sign=pf(t.get('sign', '1')), apply_to_remaining=bool(t.get('rem', False)))
+  return dk.DeviceSet(t['id'], kids, sb)
+
+
+def int_flow(rng, lb, hb, avoid_zero=()):
+  """an all-integer flow (Python ints): inside the bounds wherever a slot's bounds contain an integer, else the rounded
+  midpoint; entries listed in `avoid_zero` take a non-zero integer when the bounds allow one."""
+  out = []
+  for k, (a, b) in enumerate(zip(lb, hb)):
+    lo, hi = math.ceil(a), math.floor(b)
+    if lo > hi:
+      out.append(int(round((a + b)/2)))
+      continue
+    cand = list(range(lo, hi + 1))
+    if k in avoid_zero:
+      cand = [c for c in cand if c != 0] or cand
+    out.append(rng.choice(cand))
+  return out
+
+
 # ---------------------------------------------------------------- the documented semantics, coded independently
 def eff(e, x):
   return e if x > 0 else (1.0/e if x < 0 else 1.0)
